@@ -11,6 +11,11 @@ EXTENDS RouterSys, Json, IOUtils
 
 Rec == ndJsonDeserialize(IOEnv.TRACE)
 
+\* Strict = TRUE: every recorded step must be a model step with exactly the recorded projection of the router state.
+\* Strict = FALSE (second stage, only after a strict rejection): only what a link can observe must be explained by the
+\* model (CONNACK and connection id, everything taken out of the outgoing buffer, whether an event was there to handle);
+\* TLC infers the internal state.  The invariants are evaluated in both modes.
+CONSTANT Strict
 VARIABLE l
 tvars == <<vars, l>>
 E == Rec[l]
@@ -45,7 +50,7 @@ ConnMatch(pc, id) ==
          /\ Len(nets'[c.net].obuf) = pc.obuf
          /\ nets'[c.net].tokens = pc.tokens
 
-ProjMatch ==
+ProjFull ==
     LET P == E.proj IN
     /\ \A id \in Ids : ConnMatch(P.conns[id + 1], id)
     /\ R'.readyq = P.readyq
@@ -75,7 +80,8 @@ ProjMatch ==
              g.has /\ g.clients = P.groups[i].clients /\ g.turn = P.groups[i].turn /\ g.cursor = P.groups[i].cursor
     /\ \A k \in DOMAIN R'.groups : R'.groups[k].has => \E i \in 1..Len(P.groups) : P.groups[i].key = k
     /\ Len(chan') = P.chan
-    /\ ~R'.panicked
+
+ProjMatch == ~R'.panicked /\ (Strict => ProjFull)
 
 ---------------------------------------------------------------------------
 WillOf(w) == IF w.m = 0 THEN NOMSG ELSE Msg(w.m, w.topic, w.q, w.retain, FALSE)
@@ -146,7 +152,8 @@ TEvent ==
 
 TConsume ==
     /\ IsEvent("consume")
-    /\ IF ~E.res.some /\ R.readyq = <<>> THEN UNCHANGED vars ELSE RConsume
+    /\ IF Strict THEN (IF ~E.res.some /\ R.readyq = <<>> THEN UNCHANGED vars ELSE RConsume)
+       ELSE (IF R.readyq = <<>> \/ R.panicked THEN UNCHANGED vars ELSE RConsume)
     /\ ProjMatch
 
 TraceNext == TReset \/ TConnect \/ TFinish \/ TPush \/ TDrain \/ TClose \/ TWill \/ TRawEvent \/ TEvent \/ TConsume
